@@ -107,10 +107,10 @@ def run(ctx):
     # 1. the specification: exhaustive within bounds; negative designs rejected
     invs = ["ReadsAreReplay", "InputsEqualOutputs"]
     mc = []
-    mc.append(("good-2", ctx.tlc("ProjectionGen", cfg("MCSpec", GOOD, "PalGen", 2, 3, invs), "good-2", workers=8, timeout=1800)))
+    mc.append(("good-2", ctx.tlc("ProjectionGen", cfg("MCSpec", GOOD, "PalGen", 2, 3, invs), "good-2", workers=8, timeout=1800, pure=True)))
     if thorough:
-        mc.append(("good-3", ctx.tlc("ProjectionGen", cfg("MCSpec", GOOD, "PalSmall", 3, 3, invs), "good-3", workers=common.NCPU, timeout=3000)))
-        mc.append(("good-odd", ctx.tlc("ProjectionGen", cfg("MCSpec", GOOD, "PalOdd", 2, 3, invs), "good-odd", workers=8, timeout=1800)))
+        mc.append(("good-3", ctx.tlc("ProjectionGen", cfg("MCSpec", GOOD, "PalSmall", 3, 3, invs), "good-3", workers=common.NCPU, timeout=3000, pure=True)))
+        mc.append(("good-odd", ctx.tlc("ProjectionGen", cfg("MCSpec", GOOD, "PalOdd", 2, 3, invs), "good-odd", workers=8, timeout=1800, pure=True)))
     for n, r in mc:
         if r["status"] != "ok":
             raise Infra("Projection.tla (%s) does not satisfy its own invariants under the repaired design: %s %s" % (n, r["status"], r.get("invariant")))
@@ -118,7 +118,7 @@ def run(ctx):
     for name, sw, val, pal, kind, what in NEG:
         d = dict(GOOD)
         d[sw] = val
-        r = ctx.tlc("ProjectionGen", cfg("MCSpec", d, pal, 3 if name in ("no-patch", "null-on-empty", "acct-pit-strict") else 2, 3, invs), "neg-" + name, workers=8, timeout=1800)
+        r = ctx.tlc("ProjectionGen", cfg("MCSpec", d, pal, 3 if name in ("no-patch", "null-on-empty", "acct-pit-strict") else 2, 3, invs), "neg-" + name, workers=8, timeout=1800, pure=True)
         negs.append({"design": name, "kind": kind, "what": what, "rejected": r["status"] == "invariant", "invariant": r.get("invariant")})
         if r["status"] != "invariant":
             raise Infra("vacuity guard: the design '%s' (%s) was not rejected by TLC (%s)" % (name, what, r["status"]))
